@@ -1,13 +1,17 @@
 (** C08 — error-policy coherence: ignore, warn and fail tell one story.
 
-    Proved here for the two validation stages whose sites all go through the one policy switch
-    [site] or repeat it literally: header validation and length/digest verification.  The header
-    parser, parseBlock and the end-of-record check are covered by the correspondence run and by
-    the executable statement (uniform levels and axis-by-axis monotonicity evaluated on the
-    implementation for every generated input); their coherence lemmas are not yet mechanised
-    (PARTIAL, see DESIGN.md). *)
+    PARTIAL.  Sentences 1 and 2 ("under ignore no validation finding is produced; under fail a nil
+    error comes with an empty validation") are proved for the WHOLE pipeline of the parser
+    (search for the record start, version line, header parser, header validation, parseBlock,
+    length/digest verification, end-of-record marker) and of the builder, for every input and
+    every option setting with no axis at warn - uniform ignore, uniform fail and every mix of the
+    two ([C08_no_axis_at_warn_*]).  Sentence 3 ("fail errs exactly when warn finds") and warn's
+    "never errors" are proved for header validation and for length/digest verification; for the
+    header parser, parseBlock and the marker check, and for the axis-by-axis monotonicity, the
+    statement is evaluated on the implementation (uniform levels and all 81 axis settings for
+    every generated input) and the models of those stages are tied by the correspondence run. *)
 Require Import Model.Bytes Model.FieldDef Gen.FieldTable Model.Fields Model.Policy Model.Validate Model.Digest Model.Record.
-Require Import Proofs.ValidateProofs Proofs.RecordProofs.
+Require Import Model.Stream Proofs.ValidateProofs Proofs.RecordProofs Proofs.PolicyProofs.
 Local Open Scope N_scope.
 
 Section C08.
@@ -63,3 +67,27 @@ Proof.
   - apply validate_digest_fail_block.
 Qed.
 Print Assumptions C08_digest_verification_coherent.
+
+(** sentences 1 and 2 for the whole parser and the whole builder *)
+Theorem C08_no_axis_at_warn_parser_adds_no_finding :
+  forall uni_lower uni_upper time_ok ip_ok uri_ok wid_ok mime_dec H b32 b64 http_req_ok http_resp_ok o s,
+    no_warn o ->
+    ufindings (snd (unmarshal_plain field_table required_fields uni_lower uni_upper time_ok ip_ok uri_ok wid_ok
+                                    mime_dec H b32 b64 http_req_ok http_resp_ok o s)) = [].
+Proof. intros. apply unmarshal_plain_quiet; assumption. Qed.
+Print Assumptions C08_no_axis_at_warn_parser_adds_no_finding.
+
+Theorem C08_no_axis_at_warn_builder_adds_no_finding :
+  forall uni_lower uni_upper time_ok ip_ok uri_ok wid_ok mime_dec H b32 b64 http_req_ok http_resp_ok o vid rt hs content new_id,
+    no_warn o ->
+    findings_of (fst (build field_table required_fields uni_lower uni_upper time_ok ip_ok uri_ok wid_ok
+                            mime_dec H b32 b64 http_req_ok http_resp_ok o vid rt hs content new_id)) = [].
+Proof. intros. apply build_quiet; assumption. Qed.
+Print Assumptions C08_no_axis_at_warn_builder_adds_no_finding.
+
+(** the two uniform levels are instances *)
+Definition uniform (p : policy) (o : opts) : Prop :=
+  o_syntax o = p /\ o_spec o = p /\ o_unknown o = p /\ o_block o = p.
+Theorem C08_uniform_ignore_and_uniform_fail_are_covered :
+  forall o, uniform Ignore o \/ uniform Fail o -> no_warn o.
+Proof. intros o [(H1 & H2 & H3 & H4)|(H1 & H2 & H3 & H4)]; unfold no_warn; rewrite H1, H2, H3, H4; repeat split; discriminate. Qed.
